@@ -18,7 +18,7 @@ RULE = ('generated classes using MetaThreadSafeAttributes (1-4 attributes, optio
         'bytecode boundary of miros/thread_safe_attributes.py and of the statements; an owner must read back exactly what its own history '
         'gives, any other reader a value that instance held at some time (never another instance\'s), the fresh instance 0, and the final '
         'values must be those of the owners\' histories. distinct_nontrivial = distinct (classes, attributes, instances, history length, '
-        'ops used) tuples, and for concurrent cases distinct context-switch sequences. ' + sysx.RULE_TEXT % (1, 2))
+        'ops used) tuples, and for concurrent cases distinct context-switch sequences. ' + sysx.RULE_TEXT % (1, 1))
 CASES = {'quick': 1500, 'thorough': 100000}
 BUDGET = {'quick': 150, 'thorough': 600}
 REQUIRE = {'statements': 10000, 'reads_compared': 50000, 'fresh_instance_reads': 2000, 'subclass_cases': 100,
@@ -41,7 +41,7 @@ def teardown_worker(ctx):
   shutil.rmtree(TMP, ignore_errors=True)
 
 
-SYS = {'quick': (8, 1, 3000, 60.0), 'thorough': (32, 2, 100000, 150.0)}
+SYS = {'quick': (8, 1, 3000, 60.0), 'thorough': (64, 1, 100000, 120.0)}     # systematic cases, deviation bound, schedule cap, seconds cap (per scenario)
 
 
 def concurrent_case(ctx, n):
